@@ -7,6 +7,7 @@ package main
 // proposes inputs; every expected value comes from ObjGraph.tla through TLC.
 
 import (
+	"bytes"
 	"fmt"
 	"math/rand"
 	"sort"
@@ -771,6 +772,25 @@ func scaleCases(prefix string) []cases.ScanCase {
 		g.Normalize()
 		out = append(out, cases.ScanCase{ID: prefix + "-scale-deep", G: g, Names: names, Style: "full", Family: "scale",
 			Roots: []cases.RootSpec{{O: model.Oid{K: "c", I: 1}, Walk: true, IsRef: true, Name: "refs/heads/deep", Kind: "plain"}}})
+	}
+	{
+		// a path longer than two 64 KiB buffers: five nested directories with names of 40 000 bytes each (the line
+		// `git rev-list --objects` prints for the innermost entries is 200 KB long), next to short paths
+		var g model.Graph
+		names := map[int][]byte{1: []byte("leaf.txt"), 7: []byte("short")}
+		for i := 2; i <= 6; i++ {
+			names[i] = bytes.Repeat([]byte{byte('a' + i)}, 40000)
+		}
+		g.Blobs = []int{12, 700}
+		g.Trees = [][]model.Entry{{{K: "file", To: 1, N: 1, NL: 8}}}
+		for i := 2; i <= 6; i++ {
+			g.Trees = append(g.Trees, []model.Entry{{K: "tree", To: i - 1, N: i, NL: 40000}})
+		}
+		g.Trees = append(g.Trees, []model.Entry{{K: "tree", To: 6, N: 2, NL: 40000}, {K: "file", To: 2, N: 7, NL: 5}})
+		g.Commits = []model.Commit{{Tree: 7, Parents: []int{}}}
+		g.Normalize()
+		out = append(out, cases.ScanCase{ID: prefix + "-scale-longpath", G: g, Names: names, Style: "full", Family: "scale",
+			Roots: []cases.RootSpec{{O: model.Oid{K: "c", I: 1}, Walk: true, IsRef: true, Name: "refs/heads/longpath", Kind: "plain"}}})
 	}
 	{
 		var g model.Graph
